@@ -17,9 +17,11 @@ pub enum ElemTy {
     F32,
     OptI32,
     OptU8,
+    /// key/payload record ordered by key only (Ord-equality coarser than identity)
+    Keyed,
 }
 
-pub const ALL_ELEMS: [ElemTy; 10] = [
+pub const ALL_ELEMS: [ElemTy; 11] = [
     ElemTy::I8,
     ElemTy::I32,
     ElemTy::I64,
@@ -30,6 +32,7 @@ pub const ALL_ELEMS: [ElemTy; 10] = [
     ElemTy::F32,
     ElemTy::OptI32,
     ElemTy::OptU8,
+    ElemTy::Keyed,
 ];
 
 impl ElemTy {
@@ -45,6 +48,7 @@ impl ElemTy {
             ElemTy::F32 => "f32",
             ElemTy::OptI32 => "Option<i32>",
             ElemTy::OptU8 => "Option<u8>",
+            ElemTy::Keyed => "Keyed",
         }
     }
     pub fn from_name(s: &str) -> Option<ElemTy> {
@@ -64,6 +68,7 @@ impl ElemTy {
             ElemTy::I64 => (i64::MIN as i128, i64::MAX as i128),
             ElemTy::U8 | ElemTy::OptU8 => (0, u8::MAX as i128),
             ElemTy::U64 => (0, u64::MAX as i128),
+            ElemTy::Keyed => (-1000, 1000),
             _ => (-(1i128 << 53), 1i128 << 53),
         }
     }
@@ -102,6 +107,7 @@ impl ElemTy {
             ElemTy::N64 | ElemTy::F64 => (v as f64).to_bits() as i64,
             ElemTy::F32 => (v as f32).to_bits() as i64,
             ElemTy::U64 => (v as u64) as i64,
+            ElemTy::Keyed => (v as i64) << 32,
             _ => v as i64,
         }
     }
@@ -117,6 +123,7 @@ impl ElemTy {
             ElemTy::N64 | ElemTy::F64 => format!("{:?}", f64::from_bits(raw as u64)),
             ElemTy::F32 => format!("{:?}", f32::from_bits(raw as u32)),
             ElemTy::U64 => format!("{}", raw as u64),
+            ElemTy::Keyed => format!("key {} tag {}", raw >> 32, raw & 0xffff_ffff),
             ElemTy::OptI32 | ElemTy::OptU8 => {
                 if raw == i64::MIN {
                     "None".into()
